@@ -222,6 +222,16 @@ def mergedDocsWith (lt : Cmp) (ids : List IDS) (streams : List (List Doc)) : Out
 /-- `newMergedStreamIterator(ctx, streams, ids)` read to the end -/
 def mergedDocs (ids : List IDS) (streams : List (List Doc)) : Out (List Doc) := mergedDocsWith (less ids) ids streams
 
+/-- the same when the request context is done after `k` calls of `Next` (a deadline firing during the fetch phase):
+    `mergedStreamIterator.Next` starts with `util.IsCancelled(m.ctx)` and answers io.EOF from then on -/
+def mergedDocsWithC (lt : Cmp) (ids : List IDS) (streams : List (List Doc)) (k : Nat) : Out (List Doc) :=
+  match msiNew lt ids (streams.map Stream.leaf) with
+  | none => .panic
+  | some m => drain (min ids.length k) m
+
+def mergedDocsC (ids : List IDS) (streams : List (List Doc)) (k : Nat) : Out (List Doc) :=
+  mergedDocsWithC (less ids) ids streams k
+
 /-! ### grpcStreamIterator -/
 
 /-- what `stream.Recv()` delivers: a document block (ID from the block header, payload) or an error; the list is
@@ -257,6 +267,13 @@ def fetchDocsStream (ids : List IDS) (order : List Nat) (behav : Nat → Option 
   let opened := order.filterMap fun s => (behav s).map fun evs => (grpcIter s (groupBySource ids s).length 0 evs).1
   if opened.isEmpty && !order.isEmpty then none
   else some (mergedDocs ids opened)
+
+/-- `FetchDocsStream` + the `Next` calls when the context is done after `k` of them -/
+def fetchDocsStreamC (ids : List IDS) (order : List Nat) (behav : Nat → Option (List Ev)) (k : Nat) :
+    Option (Out (List Doc)) :=
+  let opened := order.filterMap fun s => (behav s).map fun evs => (grpcIter s (groupBySource ids s).length 0 evs).1
+  if opened.isEmpty && !order.isEmpty then none
+  else some (mergedDocsC ids opened k)
 
 /-! ### uniqueIDIterator -/
 
